@@ -98,6 +98,11 @@ pub fn c12_flush_contended(_sc: &Value) -> Value {
     let _ = b.join();
     let _ = a.join();
     let _ = e.join();
+    while let Ok(k) = server.recv(&mut buf) {
+        got.push(String::from_utf8_lossy(&buf[..k]).to_string());
+    }
+    // (for the flush-under-contention clause: what the contended flush itself got out)
+    let delivered = got.iter().any(|d| d.contains("a:1|c\n"));
     // whatever the contended emitter buffered leaves with this flush
     let last_flush = sink.flush();
     std::thread::sleep(Duration::from_millis(50));
@@ -110,7 +115,6 @@ pub fn c12_flush_contended(_sc: &Value) -> Value {
         viol.push(json!({"prop": "C12", "clause": "acknowledged-exactly-once", "detail": format!(
             "emit(\"c:1|c\") returned {:?} while another thread held the sink's lock (blocked in an oversized write); after everything was flushed the metric appears {} times on the wire", e_out, c_seen)}));
     }
-    let delivered = got.iter().any(|d| d.contains("a:1|c\n"));
     if acked && b_blocked && early == Some(true) && !delivered {
         for prop in ["C12", "C06"] {
             viol.push(json!({"prop": prop, "clause": "flush-under-contention", "detail":
